@@ -431,3 +431,171 @@ Proof.
     + apply il_spec_inverse_lemma; auto.
     + unfold il_convert_spec. rewrite map_length, seq_length. reflexivity.
 Qed.
+
+(* ------------------------------------------------------------------------------------------ *)
+(** * Region engine: reads *)
+
+Lemma map_seq_shift : forall {B} (f : nat -> B) s n, map f (seq s n) = map (fun j => f (s + j)) (seq 0 n).
+Proof.
+  intros B f s n. revert s. induction n; intros s; simpl; auto.
+  rewrite Nat.add_0_r. f_equal. rewrite IHn.
+  rewrite <- (seq_shift n 0), map_map. apply map_ext. intros j. f_equal. lia.
+Qed.
+
+Lemma flat_map_seq_shift : forall {B} (f : nat -> list B) s n,
+    flat_map f (seq s n) = flat_map (fun j => f (s + j)) (seq 0 n).
+Proof.
+  intros B f s n. rewrite !flat_map_concat_map. f_equal. apply map_seq_shift.
+Qed.
+
+Lemma seq_mul_flat : forall {B} (f : nat -> B) a b,
+    map f (seq 0 (a * b)) = flat_map (fun i => map (fun j => f (i * a + j)) (seq 0 a)) (seq 0 b).
+Proof.
+  intros B f a b. induction b.
+  - rewrite Nat.mul_0_r. reflexivity.
+  - replace (a * S b) with (a * b + a) by lia. rewrite seq_app, map_app, IHb.
+    rewrite seq_S, flat_map_app. simpl. rewrite app_nil_r. f_equal.
+    rewrite map_seq_shift. apply map_ext. intros j. f_equal. lia.
+Qed.
+
+Lemma flat_map_ext_in' : forall {A B} (f g : A -> list B) l,
+    (forall a, In a l -> f a = g a) -> flat_map f l = flat_map g l.
+Proof.
+  intros A B f g l. induction l; intros H; simpl; auto.
+  rewrite (H a) by (left; auto). f_equal. apply IHl. intros. apply H. right; auto.
+Qed.
+
+Section RegionProofs.
+  Context {P : Type}.
+  Variable d : P.
+
+  Lemma firstn_skipn_seq : forall (e : list P) p n,
+      p + n <= length e -> firstn n (skipn p e) = map (fun j => nth (p + j) e d) (seq 0 n).
+  Proof.
+    intros e p n H. apply (nth_ext _ _ d d).
+    - rewrite firstn_length, skipn_length, map_length, seq_length. lia.
+    - rewrite firstn_length, skipn_length. intros i Hi.
+      rewrite nth_firstn_lt by lia. rewrite nth_skipn_add. rewrite nth_map_seq by lia. reflexivity.
+  Qed.
+
+  Lemma map_nth_seq_id : forall (e : list P), map (fun q => nth q e d) (seq 0 (length e)) = e.
+  Proof.
+    intros e. apply (nth_ext _ _ d d).
+    - rewrite map_length, seq_length. reflexivity.
+    - rewrite map_length, seq_length. intros i Hi. rewrite nth_map_seq by auto. reflexivity.
+  Qed.
+
+  Lemma spec_read_rows : forall (e : list P) xdim r,
+      1 <= r_cx r ->
+      spec_read_px d e xdim r =
+      flat_map (fun i => map (fun j => nth ((r_sy r + i * r_ty r) * xdim + r_sx r + j * r_tx r) e d) (seq 0 (r_cx r)))
+               (seq 0 (r_cy r)).
+  Proof.
+    intros e xdim r Hcx. unfold spec_read_px. rewrite seq_mul_flat.
+    apply flat_map_ext. intros i. apply map_ext_in. intros j Hj. apply in_seq in Hj.
+    rewrite (div_of (r_cx r) i j) by lia. rewrite (mod_of (r_cx r) i j) by lia. reflexivity.
+  Qed.
+
+  Lemma run_solid_read : forall n off rowadd plen (e : list P) pos,
+      run_rops (solid_read_ops n off rowadd plen) e pos =
+      flat_map (fun i => firstn plen (skipn (off + i * rowadd) e)) (seq 0 n).
+  Proof.
+    induction n; intros off rowadd plen e pos; simpl; auto.
+    rewrite Nat.add_0_r. f_equal. rewrite IHn. rewrite (flat_map_seq_shift _ 1 n).
+    apply flat_map_ext. intros i. f_equal. f_equal. lia.
+  Qed.
+
+  Lemma run_rops_app : forall a b (e : list P) pos,
+      run_rops (a ++ b) e pos = run_rops a e pos ++ run_rops b e (snd (fold_left (fun st o => match o with RSeek n => (fst st, n) | RRead n => (fst st, snd st + n) end) a (0, pos))).
+  Proof.
+    induction a as [|o a IH]; intros b e pos; simpl; auto.
+    destruct o; simpl.
+    - rewrite IH. reflexivity.
+    - rewrite IH, app_assoc. reflexivity.
+  Qed.
+
+  Lemma run_strided_row : forall n loff sadd one (e : list P) pos rest,
+      run_rops (strided_read_row n loff sadd one ++ rest) e pos =
+      flat_map (fun j => firstn one (skipn (loff + j * sadd) e)) (seq 0 n) ++
+      run_rops rest e (match n with 0 => pos | S m => loff + m * sadd + one end).
+  Proof.
+    induction n; intros loff sadd one e pos rest; simpl; auto.
+    rewrite Nat.add_0_r. rewrite <- app_assoc. f_equal. rewrite IHn.
+    f_equal.
+    - rewrite (flat_map_seq_shift _ 1 n).
+      apply flat_map_ext. intros j. f_equal. f_equal. lia.
+    - destruct n; f_equal; lia.
+  Qed.
+
+  Lemma run_strided_read : forall n cxn off srowadd sadd one (e : list P) pos,
+      run_rops (strided_read_ops n cxn off srowadd sadd one) e pos =
+      flat_map (fun i => flat_map (fun j => firstn one (skipn (off + i * srowadd + j * sadd) e)) (seq 0 cxn)) (seq 0 n).
+  Proof.
+    induction n; intros cxn off srowadd sadd one e pos; simpl; auto.
+    rewrite run_strided_row. rewrite Nat.add_0_r. f_equal. rewrite IHn.
+    rewrite (flat_map_seq_shift _ 1 n).
+    apply flat_map_ext. intros i. apply flat_map_ext. intros j. f_equal. f_equal. lia.
+  Qed.
+
+  Lemma inside_facts : forall xdim ydim r,
+      rgn_inside xdim ydim r = true ->
+      1 <= r_tx r /\ 1 <= r_ty r /\ 1 <= r_cx r /\ 1 <= r_cy r /\
+      r_sx r + (r_cx r - 1) * r_tx r < xdim /\ r_sy r + (r_cy r - 1) * r_ty r < ydim.
+  Proof.
+    intros xdim ydim r H. unfold rgn_inside in H.
+    repeat (apply andb_prop in H; destruct H as [H ?]).
+    repeat match goal with
+           | H : (_ <=? _) = true |- _ => apply Nat.leb_le in H
+           | H : (_ <? _) = true |- _ => apply Nat.ltb_lt in H
+           end. lia.
+  Qed.
+
+  Lemma pixel_pos_bound : forall xdim ydim r i j,
+      rgn_inside xdim ydim r = true -> i < r_cy r -> j < r_cx r ->
+      (r_sy r + i * r_ty r) * xdim + r_sx r + j * r_tx r < xdim * ydim /\
+      r_sx r + j * r_tx r < xdim /\ r_sy r + i * r_ty r < ydim.
+  Proof.
+    intros xdim ydim r i j H Hi Hj. apply inside_facts in H. destruct H as (? & ? & ? & ? & Hx & Hy).
+    assert (r_sx r + j * r_tx r <= r_sx r + (r_cx r - 1) * r_tx r) by nia.
+    assert (r_sy r + i * r_ty r <= r_sy r + (r_cy r - 1) * r_ty r) by nia.
+    assert (r_sy r + i * r_ty r + 1 <= ydim) by lia.
+    nia.
+  Qed.
+
+  (** GRreadimage returns, for every requested lattice point, the pixel stored at that point *)
+  Lemma region_read_refines_lemma : forall (e : list P) xdim ydim r,
+      length e = xdim * ydim -> rgn_inside xdim ydim r = true ->
+      gr_read_px e xdim ydim r = spec_read_px d e xdim r.
+  Proof.
+    intros e xdim ydim r Hl Hin. pose proof (inside_facts _ _ _ Hin) as (Htx & Hty & Hcx & Hcy & Hx & Hy).
+    unfold gr_read_px, gr_read_ops.
+    destruct (whole_image xdim ydim r) eqn:Ew.
+    - unfold whole_image, solid_block in Ew.
+      repeat (apply andb_prop in Ew; destruct Ew as [Ew ?]).
+      repeat match goal with H : (_ =? _) = true |- _ => apply Nat.eqb_eq in H end.
+      simpl. rewrite app_nil_r, Nat.add_0_r.
+      unfold spec_read_px. rewrite firstn_all2 by (subst; lia).
+      rewrite <- (map_nth_seq_id e) at 1. replace (length e) with (r_cx r * r_cy r) by (subst; lia).
+      apply map_ext_in. intros q Hq. apply in_seq in Hq. f_equal.
+      pose proof (Nat.div_mod q (r_cx r)). nia.
+    - rewrite spec_read_rows by auto.
+      destruct (solid_block r) eqn:Es.
+      + unfold solid_block in Es. apply andb_prop in Es. destruct Es as [E1 E2].
+        apply Nat.eqb_eq in E1. apply Nat.eqb_eq in E2.
+        rewrite run_solid_read. unfold G, rd_img_offset, rd_row_add, rd_pix_len.
+        rewrite ?Nat.mul_1_l, ?Nat.mul_1_r.
+        apply flat_map_ext_in'. intros i Hi. apply in_seq in Hi.
+        pose proof (pixel_pos_bound xdim ydim r i (r_cx r - 1) Hin ltac:(lia) ltac:(lia)) as Hb.
+        rewrite (firstn_skipn_seq e) by nia.
+        apply map_ext. intros j. f_equal. nia.
+      + rewrite run_strided_read. unfold G, rd_img_offset, rd_srow_add, rd_stride_add.
+        rewrite ?Nat.mul_1_l, ?Nat.mul_1_r.
+        apply flat_map_ext_in'. intros i Hi. apply in_seq in Hi.
+        rewrite flat_map_concat_map.
+        rewrite (map_ext_in _ (fun j => [nth ((r_sy r + i * r_ty r) * xdim + r_sx r + j * r_tx r) e d])).
+        * rewrite <- flat_map_concat_map. induction (seq 0 (r_cx r)); simpl; auto; f_equal; auto.
+        * intros j Hj. apply in_seq in Hj.
+          pose proof (pixel_pos_bound xdim ydim r i j Hin ltac:(lia) ltac:(lia)) as Hb.
+          rewrite (firstn_skipn_seq e) by nia. simpl. f_equal. f_equal. nia.
+  Qed.
+End RegionProofs.
